@@ -132,6 +132,7 @@ class Sem:
         if isinstance(node, _Slice):
             v = self.eval(node.value, rd, post)
             n = node.stop - node.start
+            if n <= 0: return V.const(0)                      # empty slice: the real Evaluator sums over an empty bit range
             bits = z3.Extract(node.stop - 1, node.start, v.ext(max(v.w, node.stop)))
             return from_bits(bits, False)
         if isinstance(node, Cat):
